@@ -109,7 +109,7 @@ def worker(job):
     # ---------------- bits half ---------------------------------------------------------------------------
     for _ in range(job["n"]):
         bl = rnd.choice([3, 8, 16])
-        n = rnd.randint(1, 20)
+        n = rnd.choice([0] + list(range(1, 21)) * 2)
         p = rnd.choice(moduli)
         full = 1 << n
         v = rnd.choice([0, 1, full - 1, full, full + 1, -1, rnd.randrange(full), rnd.randrange(full), (1 << bl) - 1, 1 << bl, rnd.randint(-5, 2 * full)])
@@ -149,7 +149,7 @@ def worker(job):
     for _ in range(max(20, job["n"] // 4)):
         bl = rnd.choice([8, 16])
         p = rnd.choice(moduli)
-        w1, w2 = rnd.randint(1, 20), rnd.randint(1, 20)
+        w1, w2 = rnd.randint(0, 20), rnd.randint(0, 20)
         v = rnd.choice([(1 << w2) - 1, 1 << w2, (1 << w2) + 3, rnd.randrange(1 << max(w1, w2)), 0, 1])
         first = rnd.choice(["x.to_bits(%d)" % w1, "x.to_bits()", "x & x", "x >> 1", "~x", "x.assert_positive(%d)" % w1])
         second = rnd.choice(["bits = x.to_bits(%d)\nr = LinComb.from_bits(bits)\nnb = len(bits)" % w2, "x.assert_positive(%d)\nr = x\nnb = %d" % (w2, w2)])
@@ -179,7 +179,7 @@ def worker(job):
     # width actually enforced in-circuit (checks off), small widths
     for _ in range(max(20, job["n"] // 5)):
         bl = rnd.choice([2, 3, 4, 5])
-        n = rnd.choice([w for w in (1, 2, 3, 4, 5, 6) if w != bl] + [bl])
+        n = rnd.choice([w for w in (0, 1, 2, 3, 4, 5, 6) if w != bl] + [bl])
         p = rnd.choice(moduli)
         full = 1 << n
         v = rnd.choice([full - 1, full, full + 1, (1 << bl) - 1, 1 << bl, 0, rnd.randrange(2 * max(full, 1 << bl))])
